@@ -37,12 +37,34 @@ def RoutedSpec (i : Nat) (nbrs : List (Nat × α)) (r : Nat) (d : α) : Prop :=
   (∃ p, p ∈ nbrs ∧ lower p ∧ r = p.1 ∧ d = p.2 ∧
       ∀ q, q ∈ nbrs → lower q → S.lt (slope p) (slope q) = false)
 
+/-- the slope towards an unmasked strictly lower neighbour, over the distance reported by the grid
+for that neighbour *slot*, compares above the initial value `lowest` = -DBL_MAX of the running
+maximum.  Only the neighbour slots of the grid are constrained (quantifying over all pairs
+`(index, distance)` would be unsatisfiable over a field or IEEE doubles: take a negative
+distance). -/
+def HLow (S : Scalar α) (e : Env α) (f : Nat → α) : Prop :=
+  ∀ i, i < e.topo.n → ∀ p, p ∈ e.topo.nbrs i →
+    Fs.Router.cand (routerOps S) e.mask f i p = true →
+    S.lt S.lowest (S.div (S.sub (f i) (f p.1)) p.2) = true
+
+/-- a positive drop over a distance reported by the grid compares above `lowest` = -DBL_MAX:
+the elevation-independent fact from which `HLow` follows for *every* elevation table (over a
+field: every reported distance is positive and `lowest ≤ 0`) -/
+def HSlope (S : Scalar α) (e : Env α) : Prop :=
+  ∀ (a b : α) i, i < e.topo.n → ∀ p, p ∈ e.topo.nbrs i →
+    S.lt b a = true → S.lt S.lowest (S.div (S.sub a b) p.2) = true
+
+theorem HSlope.hlow {S : Scalar α} {e : Env α} (h : HSlope S e) (f : Nat → α) : HLow S e f := by
+  intro i hi p hp hc
+  simp only [Fs.Router.cand, Bool.and_eq_true] at hc
+  exact h _ _ i hi p hp hc.2
+
 /-- **steepest descent**: every unmasked non-base node satisfies `RoutedSpec` (order laws of the
-scalar comparison assumed; `hlow`: the slope towards a strictly lower neighbour compares above the
-initial value `lowest` = -DBL_MAX of the running maximum) -/
+scalar comparison assumed; `hlow`: the slope towards a strictly lower neighbour of *this node*
+compares above the initial value `lowest` = -DBL_MAX of the running maximum) -/
 theorem routed_row (L : Fs.Router.Laws (routerOps S)) (i : Nat) (hi : i < e.topo.n)
     (h : (e.mask i || e.isBase i) = false)
-    (hlow : ∀ p, Fs.Router.cand (routerOps S) e.mask f i p = true →
+    (hlow : ∀ p, p ∈ e.topo.nbrs i → Fs.Router.cand (routerOps S) e.mask f i p = true →
       S.lt S.lowest (S.div (S.sub (f i) (f p.1)) p.2) = true) :
     ∃ r d, (singleRouter S e par f).recv i = [r] ∧ (singleRouter S e par f).rdist i = [d] ∧
       (singleRouter S e par f).rweight i = [S.one] ∧ RoutedSpec S e f i (e.topo.nbrs i) r d := by
@@ -70,8 +92,7 @@ theorem routed_row (L : Fs.Router.Laws (routerOps S)) (i : Nat) (hi : i < e.topo
 
 /-- the receiver of a routed node is strictly lower and unmasked, or the node itself -/
 theorem recv_lower (L : Fs.Router.Laws (routerOps S)) (i : Nat) (hi : i < e.topo.n)
-    (hlow : ∀ i p, Fs.Router.cand (routerOps S) e.mask f i p = true →
-      S.lt S.lowest (S.div (S.sub (f i) (f p.1)) p.2) = true) :
+    (hlow : HLow S e f) :
     recv0 (singleRouter S e par f) i = i ∨
     (S.lt (f (recv0 (singleRouter S e par f) i)) (f i) = true ∧
      e.mask (recv0 (singleRouter S e par f) i) = false ∧
@@ -82,7 +103,7 @@ theorem recv_lower (L : Fs.Router.Laws (routerOps S)) (i : Nat) (hi : i < e.topo
     simp [recv0, (terminal_row S e par f i hi h).1]
   · have h' : (e.mask i || e.isBase i) = false := by
       cases hh : (e.mask i || e.isBase i) <;> simp_all
-    obtain ⟨r, d, h1, _, _, hs⟩ := routed_row S e par f L i hi h' (hlow i)
+    obtain ⟨r, d, h1, _, _, hs⟩ := routed_row S e par f L i hi h' (hlow i hi)
     have hr : recv0 (singleRouter S e par f) i = r := by simp [recv0, h1]
     rw [hr]
     unfold RoutedSpec at hs
